@@ -39,6 +39,12 @@ def units(tier):
                 us.append(dict(h="omp", stmt=name, form=form, slots=1, cont=[j, o], sym="sent" if rot % 2 else "mark", ind=rot % 4, strict=(rot % 3 == 0), cost=2))
                 # two continuation lines with a blank / comment line between them
                 us.append(dict(h="omp", stmt=name, form=form, slots=1, cont=[j, o], three=("comment", "blank")[rot % 2], sym="mark" if rot % 2 else "sent", ind=(rot + 1) % 4, strict=(rot % 3 == 1), cost=3))
+            # a character literal of the conditional statement continued in character context
+            if form == "free":
+                for (j, o) in [x for x in LAY.split_points(line) if x[1] > 0 and LAY.tok_spans(line)[x[0]][0] == "s"]:
+                    rot += 1
+                    shole = [h for h in holes if h[0] == "s"]
+                    us.append(dict(h="omp", stmt=name, form=form, slots=1 + rot % 3, cont=[j, o], lit=True, sym=(shole[0] if (shole and rot % 2) else "sent"), ind=rot % 4, strict=False, cost=2))
     return us
 
 
@@ -84,6 +90,11 @@ def omp(ctx):
             ctx.check(True, "not applicable")
             return
         cut = sp[j - 1][2]
+        if p.get("lit"):
+            if sp[j][0] != "s" or o >= sp[j][2] - sp[j][1]:
+                ctx.check(True, "not applicable")
+                return
+            cut = sp[j][1] + o
         pieces = [stmt[:cut], stmt[cut:]]
         if p.get("three"):
             if j + 1 >= len(sp):
@@ -107,7 +118,7 @@ def omp(ctx):
             if len(pieces) == 1:
                 out.append((sent1 if with_sentinel else "   ") + pieces[0])
             else:
-                out.append((sent1 if with_sentinel else " " * p.get("ind", 0) + "   ") + pieces[0] + " &")
+                out.append((sent1 if with_sentinel else " " * p.get("ind", 0) + "   ") + pieces[0] + ("&" if p.get("lit") else " &"))
                 for k in range(1, len(pieces)):
                     if k == 2:
                         out.append("" if p.get("three") == "blank" else "  ! between")
